@@ -531,8 +531,8 @@ class Emit:
         ("print", template-text) | ("call", method, args-text) | ("cond", text, truth)
     `with` blocks are transparent, `for` loops are taken 0, 1 and 2 times (the bodies here emit the same thing per item)."""
 
-    def __init__(self, C: Classes, cls: str, limit: int = 6000):
-        self.C, self.cls, self.limit = C, cls, limit
+    def __init__(self, C: Classes, cls: str, limit: int = 60000, unroll: tuple = (0, 1, 2)):
+        self.C, self.cls, self.limit, self.unroll = C, cls, limit, unroll
 
     @staticmethod
     def tmpl(e: ast.expr) -> str:
@@ -624,7 +624,7 @@ class Emit:
                     run(st.body + rest, acc)
                     return
                 if isinstance(st, ast.For):
-                    for k in (0, 1, 2):
+                    for k in self.unroll:
                         body = []
                         for _ in range(k):
                             body += st.body
@@ -668,7 +668,7 @@ def rule_t3(chk: Check, C: Classes):
     for g in GENERATORS:
         if g not in C.cls:
             raise AnalysisError(f"class {g} vanished")
-        E = Emit(C, g)
+        E = Emit(C, g, unroll=(0, 1, 2, 3) if getattr(chk, "tier", "quick") == "thorough" else (0, 1, 2))
         # ---------------------------------------------------------------- visit_Alt
         r = C.resolve(g, "visit_Alt")
         if r is None:
